@@ -122,6 +122,21 @@ pub fn cases(tier: Tier) -> Vec<Case> {
             out.push(Case::Hist { init: Init::Spec(t), ops: vec![Op::Elim] });
         }
     }
+    // nearly coincident parallel facets at a large offset: the "both inactive" region of the two neurons
+    // B - x and x - (B - g) is empty by the gap g (robustly empty for g > 2e-6), far from the origin
+    for b in [128.0f64, 1024.0] {
+        for g in [2f64.powi(-17), 2f64.powi(-14), 2f64.powi(-10)] {
+            for flip in [false, true] {
+                let a = if flip { Aff::new(vec![vec![1.0], vec![-1.0]], vec![-(b - g), b]) } else { Aff::new(vec![vec![-1.0], vec![1.0]], vec![b, -(b - g)]) };
+                let a2 = Aff::new(vec![vec![-1.0, 0.0], vec![1.0, 0.0]], vec![b, -(b - g)]);
+                for init in [Init::FromAff(a.clone()), Init::FromAff(a2.clone())] {
+                    out.push(Case::Hist { init: init.clone(), ops: vec![Op::Compose(GSpec::Relu(0), false), Op::Compose(GSpec::Relu(1), false), Op::Elim] });
+                    out.push(Case::Hist { init: init.clone(), ops: vec![Op::Compose(GSpec::Relu(0), false), Op::Elim, Op::Compose(GSpec::Relu(1), false), Op::Elim] });
+                    out.push(Case::Hist { init, ops: vec![Op::Compose(GSpec::Relu(1), false), Op::Elim, Op::Compose(GSpec::Relu(0), false), Op::Elim] });
+                }
+            }
+        }
+    }
     // distilled activation-only networks (clause 4)
     use super::c01::{Act, Family};
     let fams = match tier {
